@@ -107,13 +107,12 @@ class LasAppender:
             restore_needed = True
 
         try:
+            self.points_appender.append_points(points)
             if self.header.point_count == 0:
                 # the extrema of an empty file are zeros, not values to grow from
                 f64info = np.finfo(np.float64)
                 self.header.maxs = np.ones(3, dtype=np.float64) * f64info.min
                 self.header.mins = np.ones(3, dtype=np.float64) * f64info.max
-
-            self.points_appender.append_points(points)
             self.header.grow(points)
         finally:
             if restore_needed:
